@@ -143,10 +143,15 @@ def configure(ghe, scn, order=None, nominal_height=None):
             ghe.set_geometry_constraints_bi_zoned_rectangle(length=g["length"], width=g["width"], b_min=g["b_min"],
                                                             b_max_x=g["b_max_x"], b_max_y=g["b_max_y"])
         elif m == "BIRECTANGLECONSTRAINED":
+            pb = [[list(v) for v in p] for p in g["property_boundary"]]
+            ng = [[list(v) for v in p] for p in g["no_go_boundaries"]]
+            # the API also accepts a single polygon given flat (not wrapped in a list of polygons)
+            if g.get("flat_property") and len(pb) == 1:
+                pb = pb[0]
+            if g.get("flat_nogo") and len(ng) == 1:
+                ng = ng[0]
             ghe.set_geometry_constraints_bi_rectangle_constrained(
-                b_min=g["b_min"], b_max_x=g["b_max_x"], b_max_y=g["b_max_y"],
-                property_boundary=[[list(v) for v in p] for p in g["property_boundary"]],
-                no_go_boundaries=[[list(v) for v in p] for p in g["no_go_boundaries"]])
+                b_min=g["b_min"], b_max_x=g["b_max_x"], b_max_y=g["b_max_y"], property_boundary=pb, no_go_boundaries=ng)
         else:
             ghe.set_geometry_constraints_rowwise(
                 perimeter_spacing_ratio=g["perimeter_spacing_ratio"], max_spacing=g["max_spacing"], min_spacing=g["min_spacing"],
